@@ -16,6 +16,11 @@
 (*           h(x, N) along x with the gradient that reached x for upstream *)
 (*           gradient gin (both x 1000).                                   *)
 (*  "registry" [fns]  the functions the built-in specifications register.  *)
+(*  "points" [fn, pts, var, strict, obs, pos]  every state of CostDomainMC  *)
+(*           (precisions that are not integers / negative / huge, theta of *)
+(*           exactly 0 and 1, 0 and 1/4 channel) evaluated with the inputs *)
+(*           passed as var[i] ("tensor" | "pyfloat" | "pyint"); strict[i]  *)
+(*           = that input type belongs to the function's interface.        *)
 (*  "life"   [l, init, hist, ev]  a HISTORY on one shared description (a   *)
 (*           real dict re-used for every call; module CostLife): events    *)
 (*           [a |-> "set", f, v]  the owner writes one field, or           *)
@@ -328,8 +333,60 @@ CheckLife(t) ==
     IF t.l \notin {"conv1d", "conv2d", "linear"} \/ Len(t.ev) = 0 THEN "C16.trace: malformed life trace"
     ELSE LifeWalk(t, 1, t.init, "")
 
+(***************************************************************************)
+(* points on the boundary / outside of the supported domain (CostDomainMC) *)
+(***************************************************************************)
+ValidPoint(fn, q) ==
+    /\ q.cin >= 0 /\ q.cout >= 0 /\ q.b \in {0, 1} /\ q.g \in {0, 1} /\ q.td \in {0, 1, 2, 4}
+    /\ q.wf \in 0..9 /\ q.af \in 0..9
+    /\ (fn.pat = "dw" => q.g = 0)
+    /\ (q.g = 0 => q.cin = q.cout /\ q.cin >= S /\ (fn.m = "diana_latency" => q.cin > S))
+    /\ (fn.l = "linear" => q.kx = 1 /\ q.ky = 1 /\ q.ox = 1 /\ q.oy = 1 /\ q.g = 1)
+    /\ (fn.l = "conv1d" => q.ky = 1 /\ q.oy = 1)
+
+PointAt(t, i) == " [inputs passed as " \o t.var[i] \o "; w = " \o ToString(t.pts[i].w) \o "+" \o ToString(t.pts[i].wf)
+                 \o "/10, a = " \o ToString(t.pts[i].a) \o "+" \o ToString(t.pts[i].af) \o "/10, theta = "
+                 \o (IF t.pts[i].td = 0 THEN "0" ELSE "1/" \o ToString(t.pts[i].td)) \o "] " \o Where(t.fn, t.pts[i])
+
+PointStatus(t, i) ==
+    LET fn     == t.fn
+        q      == t.pts[i]
+        o      == t.obs[i]
+        raised == Cat(o) = -1
+        sup    == CostSupported(fn, q)
+        clm    == CostClaimed(fn, q)
+    IN
+    IF ~WellFormedObs(o) \/ ~ValidPoint(fn, q) THEN "C16.trace: malformed point " \o ToString(i)
+    ELSE IF clm /\ ~sup /\ ~raised
+    THEN "C16.reject: input outside the supported domain is not rejected (observed " \o ObsStr(o) \o "):" \o PointAt(t, i)
+    ELSE IF clm /\ sup /\ t.strict[i] /\ raised
+    THEN "C16.defined: cost function raises on the boundary of its domain:" \o PointAt(t, i)
+    ELSE IF Cat(o) = -2 THEN "C16.finite: cost is not finite (NaN / inf):" \o PointAt(t, i)
+    ELSE IF Cat(o) = -3 THEN "C16.nonneg: cost is negative:" \o PointAt(t, i)
+    ELSE IF ~raised /\ sup /\ NonEmpty(q) /\ NonZeroBits(fn.m, q) /\ q.td > 0 /\ ~t.pos[i]
+    THEN "C16.positive: zero cost for a non-empty layer:" \o PointAt(t, i)
+    ELSE ""
+
+PointDrift(t, i) ==
+    LET q == t.pts[i]
+        raised == Cat(t.obs[i]) = -1
+    IN  IF ~CostClaimed(t.fn, q) \/ ~CostSupported(t.fn, q) \/ (raised /\ ~t.strict[i]) THEN ""
+        ELSE IF raised # (CostCore(t.fn, q, S) = Reject)
+        THEN "transcription and code disagree on rejection:" \o PointAt(t, i)
+        ELSE IF ~raised /\ ~Conforms(t.fn, q, BigPad(t.obs[i]))
+        THEN "value differs from the transcription: observed " \o ObsStr(t.obs[i]) \o " predicted "
+             \o Predicted(t.fn, q) \o ":" \o PointAt(t, i)
+        ELSE ""
+
+CheckPoints(t) ==
+    IF t.fn \notin Registered \/ Len(t.obs) # Len(t.pts) \/ Len(t.pos) # Len(t.pts) \/ Len(t.var) # Len(t.pts)
+       \/ Len(t.strict) # Len(t.pts) \/ t.unit # ObsUnit(t.fn.m)
+    THEN "C16.trace: malformed points table"
+    ELSE Judge(Len(t.pts), LAMBDA i : PointStatus(t, i), LAMBDA i : PointDrift(t, i))
+
 Check(t) ==
     CASE t.kind = "chain"  -> CheckChain(t)
+      [] t.kind = "points" -> CheckPoints(t)
       [] t.kind = "life"   -> CheckLife(t)
       [] t.kind = "registry" -> CheckRegistry(t)
       [] t.kind = "dw"     -> CheckDw(t)
